@@ -54,4 +54,5 @@ let () =
   register "dblclose" (fun _ -> obs "dblclose held=true");
   (* what Open, the update and Sync acknowledge on a file that cannot be written is what a later
      handle reads (FileBuf.sync_durable); refusing to open acknowledges nothing *)
-  register "unwritable" (fun _ -> obs "unwritable durable=true")
+  register "unwritable" (fun _ -> obs "unwritable durable=true");
+  register "rosync" (fun _ -> obs "rosync durable=true")
